@@ -106,9 +106,16 @@ fn big_crypto(ctx: &mut Ctx, reg: &Registry) {
     let Some(e) = reg.types.iter().find(|e| e.name() == "Vec<u8>") else { return };
     let s = Subject { e, label: "Vec<u8>".into(), index: 0 };
     let mut rng = Rng::derive(ctx.seed, "c07/big");
-    for len in [99_950usize, 100_100, 250_000] {
+    for (len, cont) in [
+        (99_950usize, Container::CryptoMem),
+        (100_100, Container::CryptoMem),
+        (250_000, Container::CryptoMem),
+        // save_encrypted_file compresses first: incompressible payloads keep several frames
+        (100_100, Container::EncryptedFile),
+        (330_000, Container::EncryptedFile),
+    ] {
         let v = Val::Seq(rng.bytes(len).into_iter().map(|b| Val::U(b as u128)).collect());
-        let Outcome::Ok(file) = e.ops.save(&v, 0, Container::CryptoMem) else { continue };
+        let Outcome::Ok(file) = e.ops.save(&v, 0, cont) else { continue };
         // frame boundaries, computed from the documented framing (12 byte nonce, then u64 length + body)
         let mut bounds = vec![0usize, 12];
         let mut p = 12;
@@ -135,6 +142,6 @@ fn big_crypto(ctx: &mut Ctx, reg: &Registry) {
         }
         cuts.sort();
         cuts.dedup();
-        truncations(ctx, &s, &Val::Unit, &v, &file, Container::CryptoMem, cuts.into_iter());
+        truncations(ctx, &s, &Val::Unit, &v, &file, cont, cuts.into_iter());
     }
 }
